@@ -205,16 +205,33 @@ def body(ctx):
             rr = scen.run(dict(spec, connect_kw=dict(read_timeout_s=5.0)), mode, wcap=lambda n, c=cap: min(n, c))
             runs.append((mode, spec, ['always %d' % cap, 'every call takes %.2f s, transport timeout %.2f s' % (tick, tt)], rr))
     judge(ctx, runs, 'in-memory short writes on a slow transport', f1)
+    # 2b+. a transport that queues the caller's object and transmits it at its next call (no copy in between): what it sends is what the
+    #      object holds then - the peer must still get every message as it was when bulk_write accepted it
+    runs = []
+    for k in range(6 if ctx.quick else 60):
+        spec = scenario(ctx.seed * 7 + k, maxdata=4096)
+        for mode in ('sync', 'async'):
+            rr = scen.run(spec, mode, defer_ref=True)
+            runs.append((mode, spec, ['the transport keeps a reference and transmits at its next call'], rr))
+            r0 = scen.run(spec, mode)
+            ctx.count(evaluations=1)
+            if [e['_raw'] for e in rr.events if e['ev'] == 'tx'] != [e['_raw'] for e in r0.events if e['ev'] == 'tx'] or [o.key() for o in rr.outcomes] != [o.key() for o in r0.outcomes]:
+                ctx.violation('C15.PeerGetsAll', dict(kind='a transport that transmits the queued object later', mode=mode,
+                                                      why='the device received other messages than over a transport that copies at once',
+                                                      outcomes=[(o.kind, o.exc_name) for o in rr.outcomes]))
+    judge(ctx, runs, 'in-memory transport that transmits the queued object later', f1)
     # 2c. a write fails in the middle of a buffer (after a short write) and the transport works again: either the call raises, or
     #     the peer still got every byte - never a silent gap
     nruns = 0
     for mode in ('sync', 'async'):
         for cap in (10, 7):
             spec0 = dict(seed=ctx.seed, maxdata=4096, rid='random', frag='whole', stop_on_exc=True, stop_after_fault=True,
-                         ops=[dict(api='shell', decode=False, cmd='id', chunks=[b'uid=0'.hex()], read_timeout_s=1.0),
+                         ops=[dict(api='push', src='dir', files=[('a', 30)], cwd='elsewhere', path='/sdcard/dd', mtime=9, read_timeout_s=1.0),
+                              dict(api='shell', decode=False, cmd='id', chunks=[b'uid=0'.hex()], read_timeout_s=1.0),
                               dict(api='push', path='/q', size=60, src='bytesio', mtime=7, read_timeout_s=1.0)])
             base = scen.run(dict(spec0, connect_kw=dict(read_timeout_s=1.0)), mode, wcap=lambda n, c=cap: min(n, c))
             calls = base.sess.core.calls
+            base_tx = [e['_raw'] for e in base.events if e['ev'] == 'tx']
             if any(o.kind == 'exc' for o in base.outcomes):
                 ctx.violation('C15.PeerGetsAll', dict(kind='short-writes', label='%d bytes per call, no fault' % cap, mode=mode, outcomes=[(o.kind, o.exc_name) for o in base.outcomes]))
                 continue
@@ -233,9 +250,12 @@ def body(ctx):
             for (i, l, v) in ver:
                 _, _, caps, rr = batch[i]
                 raised = any(o.kind == 'exc' for o in rr.outcomes)     # the session ends with the operation in which the fault struck
-                if not raised and (v.startswith('C02.') or rr.sess.core.hbuf):
+                # nothing raised: then the device must have received exactly the messages of the fault-free run, as far as the session went
+                got_tx = [e['_raw'] for e in rr.events if e['ev'] == 'tx']
+                missing = (not raised) and got_tx != base_tx[:len(got_tx)]
+                if not raised and (v.startswith('C02.') or rr.sess.core.hbuf or missing):
                     ctx.violation('C15.NeverSilentlyTruncated', dict(kind='short-writes+fault', mode=mode, capacities=caps, frame_clause=v, pending_bytes=len(rr.sess.core.hbuf),
-                                                                      outcomes=[o.kind for o in rr.outcomes]))
+                                                                      message_missing_or_altered=missing, outcomes=[o.kind for o in rr.outcomes]))
                 else:
                     ctx.count(traces=1, evaluations=1)
     ctx.extra['failed_write_mid_buffer_runs'] = nruns
